@@ -321,17 +321,23 @@ theorem wstep_execAssign (ih : AllW f) : ∀ t r rhs σ, Inv σ → EnsAt σ (ex
   all_goals
     exact EnsAt.writeLoc_holder _ _ (by assumption) ((by assumption : TargetPost _ _) _ rfl) (ty_of_not_bne (by assumption))
 
+/-- transport a `SlotsOK` fact along the chain of `Ext` hypotheses in the context -/
+syntax "wt_slots" : tactic
+macro_rules | `(tactic| wt_slots) => `(tactic| first
+  | assumption
+  | (refine SlotsOK.mono (by assumption) ?_; wt_slots))
+
 theorem wstep_callProc (ih : AllW f) : ∀ t name args σ, Inv σ → EnsAt σ (callProc (f+1) t name args) T := by
   intro t name args σ hi; wt_fn callProc
   all_goals
-    refine EnsAt.withAct_T _ _ (by assumption) rfl (SlotsOK.mono (by assumption) (by assumption)) ?_
+    refine EnsAt.withAct_T _ _ (by assumption) rfl (by wt_slots) ?_
     wt_auto
 
 set_option maxHeartbeats 400000 in
 theorem wstep_callFun (ih : AllW f) : ∀ t args σ, Inv σ → EnsAt σ (callFun (f+1) t args) T := by
   intro t args σ hi; wt_fn callFun
   all_goals
-    refine EnsAt.withAct_T _ _ (by assumption) rfl (SlotsOK.mono (by assumption) (by assumption)) ?_
+    refine EnsAt.withAct_T _ _ (by assumption) rfl (by wt_slots) ?_
     wt_auto
 
 theorem wstep_evalExpr (ih : AllW f) : ∀ e σ, Inv σ → EnsAt σ (evalExpr (f+1) e) T := by
